@@ -43,17 +43,22 @@ import (
 	"github.com/ethereum/go-ethereum/accounts/abi"
 	"github.com/ethereum/go-ethereum/common"
 	"github.com/ethereum/go-ethereum/common/hexutil"
+	ethcrypto "github.com/ethereum/go-ethereum/crypto"
+	"github.com/prysmaticlabs/prysm/v4/crypto/bls/blst"
+	blscommon "github.com/prysmaticlabs/prysm/v4/crypto/bls/common"
 	ethtypes "github.com/ethereum/go-ethereum/core/types"
 	"github.com/evmos/evmos/v16/crypto/ethsecp256k1"
 	evmtypes "github.com/evmos/evmos/v16/x/evm/types"
 
 	exocoreapp "github.com/ExocoreNetwork/exocore/app"
 	assetsprecompile "github.com/ExocoreNetwork/exocore/precompiles/assets"
+	avsprecompile "github.com/ExocoreNetwork/exocore/precompiles/avs"
 	delegationprecompile "github.com/ExocoreNetwork/exocore/precompiles/delegation"
 	testutiltx "github.com/ExocoreNetwork/exocore/testutil/tx"
 	keytypes "github.com/ExocoreNetwork/exocore/types/keys"
 	"github.com/ExocoreNetwork/exocore/utils"
 	assetstypes "github.com/ExocoreNetwork/exocore/x/assets/types"
+	avstypes "github.com/ExocoreNetwork/exocore/x/avs/types"
 	delegationtypes "github.com/ExocoreNetwork/exocore/x/delegation/types"
 	dogfoodtypes "github.com/ExocoreNetwork/exocore/x/dogfood/types"
 	epochstypes "github.com/ExocoreNetwork/exocore/x/epochs/types"
@@ -164,7 +169,7 @@ func chainGenesis(cc ChainCfg) (w *World, appState []byte) {
 	gc.NStakers = cc.NStakers
 	gc.Assets = nil
 	for i, a := range cc.Assets {
-		gc.Assets = append(gc.Assets, AssetCfg{ID: a, Decimals: cc.Decimals[i], Price: cc.Prices[i], PriceDec: 0})
+		gc.Assets = append(gc.Assets, AssetCfg{ID: a, Decimals: cc.Decimals[i], Price: cc.Prices[i], PriceDec: 0, NST: strings.HasPrefix(a, "nst")})
 	}
 	gc.Validators = nil
 	for _, v := range cc.Validators {
@@ -241,6 +246,7 @@ type Node struct {
 	txCfg   client.TxConfig
 	assetsP *assetsprecompile.Precompile
 	delegP  *delegationprecompile.Precompile
+	avsP    *avsprecompile.Precompile
 	run     string
 	role    string
 	tw      *TraceWriter
@@ -294,11 +300,13 @@ func runChainNode(args []string) int {
 	must(err)
 	n.delegP, err = delegationprecompile.NewPrecompile(app.AssetsKeeper, app.DelegationKeeper, app.AuthzKeeper)
 	must(err)
+	n.avsP, err = avsprecompile.NewPrecompile(app.AVSManagerKeeper, app.AuthzKeeper)
+	must(err)
 	n.tw = NewTraceWriter(*out)
 	defer n.tw.Close()
 	for _, b := range sc.Blocks {
 		for _, t := range b.Txs {
-			if t.Key != "" && !strings.HasPrefix(t.Key, "from:") {
+			if t.Key != "" && !strings.HasPrefix(t.Key, "from:") && t.K != "depnst" && t.K != "wdnst" {
 				n.consKey(t.Key)
 			}
 		}
@@ -505,7 +513,7 @@ func (n *Node) block(h int64) (alive bool) {
 			"evh": eventsHash(res.Events)}
 		if res.Code != 0 {
 			lg := res.Log
-			if len(lg) > 160 {
+			if len(lg) > 600 {
 				lg = lg[:600]
 			}
 			to["log"] = lg
@@ -581,6 +589,7 @@ func (n *Node) block(h int64) (alive bool) {
 		line["m"] = bd.M
 	}
 	line["st"] = n.project()
+	line["query"] = n.nativeQuery()
 	n.emit(line)
 	return true
 }
@@ -606,6 +615,23 @@ func firstExocoreFrame(stack string) string {
 		}
 	}
 	return "?"
+}
+
+// assets.GetStakerSpecifiedAssetInfo for the native token (Go-map loop over the staker's delegations): only reachable
+// through the gRPC query at this commit (the reward precompile stops at ErrNotSupportYet); logged, not part of C08
+func (n *Node) nativeQuery() map[string]interface{} {
+	ctx := n.app.NewContext(true, tmproto.Header{Height: n.app.LastBlockHeight(), ChainID: n.w.Cfg.ChainID})
+	out := map[string]interface{}{}
+	for i, a := range n.w.StAddrs {
+		sid, _ := assetstypes.GetStakerIDAndAssetIDFromStr(assetstypes.ExocoreChainLzID, a.String(), "")
+		info, err := n.app.AssetsKeeper.GetStakerSpecifiedAssetInfo(ctx, sid, assetstypes.ExocoreAssetID)
+		if err != nil {
+			out[fmt.Sprintf("s%d", i+1)] = "err"
+			continue
+		}
+		out[fmt.Sprintf("s%d", i+1)] = info.TotalDepositAmount.String() + "/" + info.PendingUndelegationAmount.String()
+	}
+	return out
 }
 
 func pubKeyAddr(vu abci.ValidatorUpdate) []byte {
@@ -753,7 +779,7 @@ func (n *Node) buildTx(ctx sdk.Context, td TxDesc, h int64) (bz []byte, err erro
 		if td.K == "wd" {
 			m = assetsprecompile.MethodWithdrawLST
 		}
-		in, e := n.assetsP.ABI.Pack(m, uint32(LzID), pad32(w.AssetAddr[td.A].Bytes()), pad32(w.St(td.S).Bytes()), amt())
+		in, e := n.assetsP.ABI.Pack(m, uint32(LzID), cpad32(w.AssetAddr[td.A].Bytes()), cpad32(w.St(td.S).Bytes()), amt())
 		must(e)
 		return n.ethTx(ctx, n.acct(td.gwOr()), n.assetsP.Address(), in)
 	case "del", "undel":
@@ -761,15 +787,15 @@ func (n *Node) buildTx(ctx sdk.Context, td TxDesc, h int64) (bz []byte, err erro
 		if td.K == "undel" {
 			m = delegationprecompile.MethodUndelegate
 		}
-		in, e := n.delegP.ABI.Pack(m, uint32(LzID), td.N, pad32(w.AssetAddr[td.A].Bytes()), pad32(w.St(td.S).Bytes()), []byte(w.Op(td.O).String()), amt())
+		in, e := n.delegP.ABI.Pack(m, uint32(LzID), td.N, cpad32(w.AssetAddr[td.A].Bytes()), cpad32(w.St(td.S).Bytes()), []byte(w.Op(td.O).String()), amt())
 		must(e)
 		return n.ethTx(ctx, n.acct(td.gwOr()), n.delegP.Address(), in)
 	case "assoc":
-		in, e := n.delegP.ABI.Pack(delegationprecompile.MethodAssociateOperatorWithStaker, uint32(LzID), pad32(w.St(td.S).Bytes()), []byte(w.Op(td.O).String()))
+		in, e := n.delegP.ABI.Pack(delegationprecompile.MethodAssociateOperatorWithStaker, uint32(LzID), cpad32(w.St(td.S).Bytes()), []byte(w.Op(td.O).String()))
 		must(e)
 		return n.ethTx(ctx, n.acct(td.gwOr()), n.delegP.Address(), in)
 	case "dissoc":
-		in, e := n.delegP.ABI.Pack(delegationprecompile.MethodDissociateOperatorFromStaker, uint32(LzID), pad32(w.St(td.S).Bytes()))
+		in, e := n.delegP.ABI.Pack(delegationprecompile.MethodDissociateOperatorFromStaker, uint32(LzID), cpad32(w.St(td.S).Bytes()))
 		must(e)
 		return n.ethTx(ctx, n.acct(td.gwOr()), n.delegP.Address(), in)
 	case "regop":
@@ -810,6 +836,52 @@ func (n *Node) buildTx(ctx sdk.Context, td TxDesc, h int64) (bz []byte, err erro
 		return n.cosmosTx(ctx, k, slashingtypes.NewMsgUnjail(sdk.ValAddress(accAddr(k))))
 	case "price":
 		return n.priceTx(ctx, td, h)
+	case "depnst", "wdnst":
+		m := assetsprecompile.MethodDepositNST
+		if td.K == "wdnst" {
+			m = assetsprecompile.MethodWithdrawNST
+		}
+		in, e := n.assetsP.ABI.Pack(m, uint32(LzID), h256("nstvalidator:"+td.Key), cpad32(w.St(td.S).Bytes()), amt())
+		must(e)
+		return n.ethTx(ctx, n.acct("gw"), n.assetsP.Address(), in)
+	case "avsreg": // the EOA td.S plays the AVS contract (AVS address = task address = caller)
+		c := n.acct(td.S)
+		self := common.BytesToAddress(c.PubKey().Address().Bytes())
+		var aids []string
+		for _, a := range strings.Split(td.A, ",") {
+			aids = append(aids, w.AssetID[a])
+		}
+		in, e := n.avsP.ABI.Pack(avsprecompile.MethodRegisterAVS, self, "avs-"+td.S, uint64(1), self, self, self, []string{accAddr(c).String()},
+			aids, uint64(2), uint64(0), chainEpochID, []uint64{1, 1, 5, 5})
+		must(e)
+		return n.ethTx(ctx, c, n.avsP.Address(), in)
+	case "avsopt":
+		in, e := n.avsP.ABI.Pack(avsprecompile.MethodRegisterOperatorToAVS, common.BytesToAddress(w.Op(td.O).Bytes()))
+		must(e)
+		return n.ethTx(ctx, n.acct(td.S), n.avsP.Address(), in)
+	case "avsbls":
+		sk := blsKeyOf(td.O)
+		msg := h256("blsreg:" + td.O)
+		in, e := n.avsP.ABI.Pack(avsprecompile.MethodRegisterBLSPublicKey, common.BytesToAddress(w.Op(td.O).Bytes()), "bls-"+td.O, sk.PublicKey().Marshal(), sk.Sign(msg).Marshal(), msg)
+		must(e)
+		return n.ethTx(ctx, n.acct(td.S), n.avsP.Address(), in)
+	case "avstask":
+		c := n.acct(td.S)
+		self := common.BytesToAddress(c.PubKey().Address().Bytes())
+		in, e := n.avsP.ABI.Pack(avsprecompile.MethodCreateAVSTask, self, fmt.Sprintf("task-%d", td.N), h256(fmt.Sprintf("taskhash:%s:%d", td.S, td.N)), uint64(1), uint64(1), uint64(60), uint64(1))
+		must(e)
+		return n.ethTx(ctx, c, n.avsP.Address(), in)
+	case "avsres": // MsgSubmitTaskResult of operator td.O for task td.N of contract td.S, stage td.D ("1" | "2")
+		k := n.acct(td.O)
+		resp, _ := avstypes.MarshalTaskResponse(avstypes.TaskResponse{TaskID: td.N, NumberSum: big.NewInt(int64(40 + td.N))})
+		sig := blsKeyOf(td.O).Sign(ethcrypto.Keccak256Hash(resp).Bytes()).Marshal()
+		info := &avstypes.TaskResultInfo{OperatorAddress: accAddr(k).String(), TaskContractAddress: common.BytesToAddress(n.acct(td.S).PubKey().Address().Bytes()).String(),
+			TaskId: td.N, BlsSignature: sig, Stage: avstypes.TwoPhaseCommitOne}
+		if td.D == "2" {
+			info.Stage = avstypes.TwoPhaseCommitTwo
+			info.TaskResponse = resp
+		}
+		return n.cosmosTx(ctx, k, &avstypes.SubmitTaskResultReq{FromAddress: accAddr(k).String(), Info: info})
 	}
 	return nil, fmt.Errorf("unknown tx kind %q", td.K)
 }
@@ -819,6 +891,12 @@ func (td TxDesc) gwOr() string {
 		return strings.TrimPrefix(td.Key, "from:")
 	}
 	return "gw"
+}
+
+func cpad32(b []byte) []byte {
+	out := make([]byte, 32)
+	copy(out, b)
+	return out
 }
 
 func (n *Node) ethTx(ctx sdk.Context, k *ethsecp256k1.PrivKey, to common.Address, input []byte) ([]byte, error) {
@@ -852,6 +930,16 @@ func (n *Node) cosmosTx(ctx sdk.Context, k *ethsecp256k1.PrivKey, msgs ...sdk.Ms
 		return nil, err
 	}
 	return n.txCfg.TxEncoder()(tx)
+}
+
+func blsKeyOf(label string) blscommon.SecretKey {
+	for i := 0; ; i++ {
+		b := h256(fmt.Sprintf("bls:%s#%d", label, i))
+		b[0] &= 0x3f
+		if k, err := blst.SecretKeyFromBytes(b); err == nil {
+			return k
+		}
+	}
 }
 
 func zeroIfNil(b *big.Int) *big.Int {
@@ -914,6 +1002,18 @@ func (n *Node) precompileOK(td TxDesc, res abci.ResponseDeliverTx) (ok bool, kno
 		a, m = n.delegP.ABI, delegationprecompile.MethodAssociateOperatorWithStaker
 	case "dissoc":
 		a, m = n.delegP.ABI, delegationprecompile.MethodDissociateOperatorFromStaker
+	case "depnst":
+		a, m = n.assetsP.ABI, assetsprecompile.MethodDepositNST
+	case "wdnst":
+		a, m = n.assetsP.ABI, assetsprecompile.MethodWithdrawNST
+	case "avsreg":
+		a, m = n.avsP.ABI, avsprecompile.MethodRegisterAVS
+	case "avsopt":
+		a, m = n.avsP.ABI, avsprecompile.MethodRegisterOperatorToAVS
+	case "avsbls":
+		a, m = n.avsP.ABI, avsprecompile.MethodRegisterBLSPublicKey
+	case "avstask":
+		a, m = n.avsP.ABI, avsprecompile.MethodCreateAVSTask
 	default:
 		return false, false
 	}
